@@ -575,7 +575,8 @@ def rule_s12(ctx, F):
         if c is not None and "child_index" in show(c) and "ts_subtree_child_count" in show(c):
             conds.append((b.id, c))
     if not conds:
-        ctx.ok("S12", key, "no index-against-child-count test: the resume point is kept unconditionally", nontrivial=False)
+        ctx.bad("S12", key, "ts_node__first_child_for_byte saves its iterator before every descent, without testing whether siblings remain: there is a single saved resume point, so descending through a "
+                "hidden node that is the *last* child of another hidden node overwrites the still-needed outer resume point with an exhausted iterator, and later children of the outer node are never looked at")
         return
     for bid, c in conds:
         subj = [arg_var(x, 0) for x in walk(c) if x.get("k") == "call" and callee_name(x) == "ts_node__subtree"]
